@@ -64,11 +64,13 @@ def run(ctx) -> None:
     fn = g.func("ComponentSpecification._compute_memoization_info")
     ctx.analysed(fn)
     sl = dslice.Slicer(fn, {"md5_of_file"})
-    rets = [n for n in source.walk_own(fn) if isinstance(n, ast.Assign) and any(isinstance(t, ast.Name) and t.id == "ret" for t in n.targets)
+    # role: the returned dictionary = the local bound to a literal with the keys files / command / backend
+    RET = match.role(fn, lambda v: isinstance(v, ast.Dict) and {"files", "command"} <= {k.value for k in v.keys if isinstance(k, ast.Constant)}, "ret")
+    rets = [n for n in source.walk_own(fn) if isinstance(n, ast.Assign) and any(isinstance(t, ast.Name) and t.id == RET for t in n.targets)
             and isinstance(n.value, ast.Dict)]
     ctx.require(len(rets) == 1, "anchor missing: the 'ret = {...}' literal of _compute_memoization_info")
     retd = rets[0].value
-    final_ret = [r for r in source.walk_own(fn) if isinstance(r, ast.Return) and isinstance(r.value, ast.Name) and r.value.id == "ret"]
+    final_ret = [r for r in source.walk_own(fn) if isinstance(r, ast.Return) and isinstance(r.value, ast.Name) and r.value.id == RET]
     ctx.require(bool(final_ret), "anchor missing: 'return ret' in _compute_memoization_info")
     parts: Dict[str, Set[str]] = {}
     for k, v in zip(retd.keys, retd.values):
@@ -77,7 +79,7 @@ def run(ctx) -> None:
     ctx.extra["slice_leaves"] = {k: sorted(v) for k, v in parts.items()}
     ctx.extra["slice_visits"] = sl.visits
     # other stores into ret on the non-custom path (ret['x'] = ...)
-    for fpath, v in sl.field_defs.get("ret", []):
+    for fpath, v in sl.field_defs.get(RET, []):
         parts.setdefault("ret[%s]" % (fpath[0] if fpath else "?"), set()).update(sl.leaves(v))
 
     # ---------------- R1 -------------------------------------------------------------------------------
@@ -112,7 +114,8 @@ def run(ctx) -> None:
     ok = {"files", "command", "backend"} <= keys
     ctx.ob("C16.R2-required-ingredients", rets[0], ok, "ret has files/command/backend" if ok else "ret lost one of files/command/backend: %s" % sorted(keys),
            construct="ret keys %s" % sorted(keys))
-    cmd = match.assigned_value(fn, "info_commandline")
+    cmd_names = [v.id for k, v in zip(retd.keys, retd.values) if isinstance(k, ast.Constant) and k.value == "command" and isinstance(v, ast.Name)]
+    cmd = match.assigned_value(fn, cmd_names[0]) if cmd_names else [v for k, v in zip(retd.keys, retd.values) if isinstance(k, ast.Constant) and k.value == "command"]
     ok = any(isinstance(v, ast.Dict) and {k.value for k in v.keys if isinstance(k, ast.Constant)} == {"executable", "arguments"} for v in cmd)
     ctx.ob("C16.R2-required-ingredients", cmd[0] if cmd else fn, ok, "command = {executable, arguments}" if ok else "info_commandline is no longer {executable, arguments}")
     pb = g.functions.get("ComponentSpecification._compute_memoization_info.postprocess_backend")
@@ -164,13 +167,21 @@ def run(ctx) -> None:
     md5_nodes = match.nodes_calling(cfg, lambda c: call_name(c) == "md5_of_file")
     ctx.require(bool(md5_nodes), "anchor missing: md5_of_file call")
 
+    # roles: CUSTOM = the local read from ...get('embeddingFunction'); PRODREF = the local that is None for files not produced
+    # by a component (assigned None and an identifier)
+    CUSTOM = match.role(fn, lambda v: "embeddingFunction" in source.src(v), "custom_js")
+    PRODREF = match.role(fn, lambda v: isinstance(v, ast.Constant) and v.value is None and True, "prod_ref")
+    cands = [nm for nm in match.locals_where(fn, lambda v: isinstance(v, ast.Constant) and v.value is None)
+             if any(isinstance(v, ast.Name) for v in match.assigned_value(fn, nm)) and len(match.assigned_value(fn, nm)) == 2]
+    PRODREF = cands[0] if cands else "prod_ref"
+
     def atomise(e):
         if isinstance(e, ast.Name) and e.id == "fuzzy":
             return ("fuzzy", True)
-        if isinstance(e, ast.Name) and e.id == "custom_js":
+        if isinstance(e, ast.Name) and e.id == CUSTOM:
             return ("custom", True)
         cp = match.compare_parts(e)
-        if cp and isinstance(cp[0], ast.Name) and cp[0].id == "prod_ref" and isinstance(cp[2], ast.Constant) and cp[2].value is None:
+        if cp and isinstance(cp[0], ast.Name) and cp[0].id == PRODREF and isinstance(cp[2], ast.Constant) and cp[2].value is None:
             if isinstance(cp[1], ast.Is):
                 return ("prod_none", True)
             if isinstance(cp[1], ast.IsNot):
@@ -196,7 +207,9 @@ def run(ctx) -> None:
                "file content is hashed iff strong mode, or a direct (non-produced) file, or a custom embedding function" if ok else
                "the content of files produced by other components is hashed in fuzzy mode (or the guard changed): %s" % (bad[:1] or free[:1]),
                construct="guard of md5_of_file")
-    ph = [v for v in match.assigned_value(fn, "prod_hash") if isinstance(v, ast.Call) and last_attr(v) == "join"]
+    ph = [v for nm in match.locals_where(fn, lambda v: isinstance(v, ast.Call) and last_attr(v) == "join" and isinstance(v.func.value, ast.Constant)
+                                         and v.func.value.value == "#") for v in match.assigned_value(fn, nm)
+          if isinstance(v, ast.Call) and last_attr(v) == "join"]
     ok = False
     for v in ph:
         if isinstance(v.func.value, ast.Constant) and v.func.value.value == "#" and v.args and isinstance(v.args[0], ast.Tuple):
